@@ -176,8 +176,8 @@ class _LinearMatrix_dense_forward_simple_covariance(_AbstractDistribution):
             self.Gtd0: _numpy.ndarray = G.T @ invcov @ self.d
             self.dtd: float = (self.d.T @ invcov @ self.d).item()
 
-            # Free up unnecessary variables
-            del self.G, self.d, self.data_variance, self.data_sigma
+            # Free up unnecessary variables (G is kept: it is needed by forward())
+            del self.d, self.data_variance, self.data_sigma
         else:
             self.Gt: _numpy.ndarray = G.T
 
@@ -255,8 +255,8 @@ class _LinearMatrix_dense_forward_dense_covariance(_AbstractDistribution):
             self.Gtd0: _numpy.ndarray = G.T @ self.invcov @ self.d
             self.dtd: float = (self.d.T @ self.invcov @ self.d).item()
 
-            # Free up unnecessary variables
-            del self.G, self.d, self.data_covariance
+            # Free up unnecessary variables (G is kept: it is needed by forward())
+            del self.d, self.data_covariance
         else:
             self.Gt: _numpy.ndarray = self.G.T
             self.cholesky_upper_inv_covariance: _numpy.ndarray = _numpy.linalg.cholesky(
@@ -353,8 +353,8 @@ class _LinearMatrix_sparse_forward_simple_covariance(_AbstractDistribution):
             self.Gtd0: _scipy.sparse.spmatrix = G.T @ invcov @ self.d
             self.dtd: float = (self.d.T @ invcov @ self.d).item()
 
-            # Free up unnecessary variables
-            del self.G, self.d, self.data_variance, self.data_sigma
+            # Free up unnecessary variables (G is kept: it is needed by forward())
+            del self.d, self.data_variance, self.data_sigma
         else:
             self.Gt: _scipy.sparse.spmatrix = self.G.T.astype(dtype)
 
